@@ -96,6 +96,7 @@ type CKKSCase struct {
 	Degree2     int            `json:"degree2"` // > 0: a second polynomial evaluated afterwards with the SAME evaluator and input object
 	Coeffs2     [][][2]float64 `json:"coeffs2"`
 	Target2Rel  float64        `json:"target2Rel"`
+	Owners2     []int          `json:"owners2"` // slot mapping of the second polynomial vector (differs from the first)
 }
 
 func (c CKKSCase) RandSeed() uint64 { return c.Seed }
@@ -314,6 +315,10 @@ func genCKKS(t *rapid.T) CKKSCase {
 				}
 				c.Coeffs2 = append(c.Coeffs2, cs)
 			}
+			if c.Kind == "vector" && !c.Cheb && rapid.Bool().Draw(t, "owners2") {
+				// (Chebyshev inputs are pre-mapped with the interval of the polynomial owning the slot: same mapping there)
+				c.Owners2 = genOwners(t, slots, npoly)
+			}
 			c.Target2Rel = 1
 			if rapid.Bool().Draw(t, "target2K") {
 				c.Target2Rel = rapid.Float64Range(0.5, 2).Draw(t, "target2Rel")
@@ -452,7 +457,7 @@ func runCKKS(c CKKSCase, rec *h.Rec) error {
 		}
 		return
 	}
-	mkPol := func(polys []bignum.Polynomial) (interface{}, ckkspoly.PolynomialVector, error) {
+	mkPol := func(polys []bignum.Polynomial, owners []int) (interface{}, ckkspoly.PolynomialVector, error) {
 		switch c.Kind {
 		case "bignum":
 			return polys[0], ckkspoly.PolynomialVector{}, nil
@@ -461,7 +466,7 @@ func runCKKS(c CKKSCase, rec *h.Rec) error {
 			p.Lazy = c.Lazy
 			return p, ckkspoly.PolynomialVector{}, nil
 		}
-		pv, err := ckkspoly.NewPolynomialVector(polys, ownersToMapping(c.Owners, npoly))
+		pv, err := ckkspoly.NewPolynomialVector(polys, ownersToMapping(owners, npoly))
 		if err != nil {
 			return nil, pv, h.Failf("C13:ckks:NewPolynomialVector", "%v", err)
 		}
@@ -471,7 +476,7 @@ func runCKKS(c CKKSCase, rec *h.Rec) error {
 		return pv, pv, nil
 	}
 	polys, refCoeffs, S := mkPolys(c.Coeffs, true)
-	pol, pv, err := mkPol(polys)
+	pol, pv, err := mkPol(polys, c.Owners)
 	if err != nil {
 		return err
 	}
@@ -642,7 +647,13 @@ func runCKKS(c CKKSCase, rec *h.Rec) error {
 		return epsUnit * (1 + S)
 	}
 	// depth / scale / value contract of one evaluation; returns (passed, error)
-	verify := func(out *rlwe.Ciphertext, refCoeffs [][]bc, degree int, target rlwe.Scale, tol float64, parity, stage string) (bool, error) {
+	ownerOf := func(owners []int, i int) int {
+		if c.Kind == "vector" {
+			return owners[i]
+		}
+		return 0
+	}
+	verify := func(out *rlwe.Ciphertext, refCoeffs [][]bc, owners []int, degree int, target rlwe.Scale, tol float64, parity, stage string) (bool, error) {
 		depth := advertisedDepth(degree)
 		if want := c.Level - depth*lcpr; out.Level() != want {
 			return false, h.Failf("C13:ckks:level"+stage, "degree %d: input level %d, output level %d, want %d", degree, c.Level, out.Level(), want)
@@ -671,7 +682,7 @@ func runCKKS(c CKKSCase, rec *h.Rec) error {
 		bad, first, worst := 0, "", 0.0
 		for i := 0; i < slots; i++ {
 			want := bcNew(0, 0)
-			if o := owner(i); o >= 0 {
+			if o := ownerOf(owners, i); o >= 0 {
 				want = refEval(c.Cheb, refCoeffs[o], mapped[i])
 			}
 			g := bc{new(big.Float).SetPrec(refPrec).Set(got[i][0]), new(big.Float).SetPrec(refPrec).Set(got[i][1])}
@@ -692,7 +703,7 @@ func runCKKS(c CKKSCase, rec *h.Rec) error {
 					wi, _ := want.im.Float64()
 					gr, _ := g.re.Float64()
 					gi, _ := g.im.Float64()
-					first = fmt.Sprintf("slot %d (poly %d): x=%v got (%g,%g) want (%g,%g) err 2^%.1f tol 2^%.1f", i, owner(i), raw[i], gr, gi, wr, wi, math.Log2(e), math.Log2(lim))
+					first = fmt.Sprintf("slot %d (poly %d): x=%v got (%g,%g) want (%g,%g) err 2^%.1f tol 2^%.1f", i, ownerOf(owners, i), raw[i], gr, gi, wr, wi, math.Log2(e), math.Log2(lim))
 				}
 				bad++
 			}
@@ -723,7 +734,7 @@ func runCKKS(c CKKSCase, rec *h.Rec) error {
 		return true, nil
 	}
 	tol := tolFor(S, c.TargetRel)
-	if ok, err := verify(out, refCoeffs, c.Degree, target, tol, c.Shapes[0].Parity, ""); !ok {
+	if ok, err := verify(out, refCoeffs, c.Owners, c.Degree, target, tol, c.Shapes[0].Parity, ""); !ok {
 		return err
 	}
 	if hh := ctHash(ct); hh != ctBefore {
@@ -735,7 +746,12 @@ func runCKKS(c CKKSCase, rec *h.Rec) error {
 	if c.Degree2 > 0 {
 		rec.Class("second-polynomial")
 		polys2, ref2, S2 := mkPolys(c.Coeffs2, false)
-		pol2, _, err := mkPol(polys2)
+		owners2 := c.Owners
+		if c.Owners2 != nil {
+			owners2 = c.Owners2
+			rec.Class("second-polynomial:other-mapping")
+		}
+		pol2, _, err := mkPol(polys2, owners2)
 		if err != nil {
 			return err
 		}
@@ -750,14 +766,14 @@ func runCKKS(c CKKSCase, rec *h.Rec) error {
 		if err != nil || pmsg != "" {
 			return h.Failf("C13:ckks:Evaluate:error:second-use", "second polynomial of degree %d (first %d) at level %d, fromPB %v, lazy %v: %v %s", c.Degree2, c.Degree, c.Level, c.FromPB, c.Lazy, err, pmsg)
 		}
-		if ok, err := verify(out2, ref2, c.Degree2, target2, tolFor(S2, c.Target2Rel), "general", ":second-use"); !ok {
+		if ok, err := verify(out2, ref2, owners2, c.Degree2, target2, tolFor(S2, c.Target2Rel), "general", ":second-use"); !ok {
 			return err
 		}
 		if hh := ctHash(ct); hh != ctBefore {
 			return failInput(mode, "second", ctBefore, hh)
 		}
 		// the first result must not have been touched by the second evaluation
-		if ok, err := verify(out, refCoeffs, c.Degree, target, tol, c.Shapes[0].Parity, ":first-result-after-second-use"); !ok {
+		if ok, err := verify(out, refCoeffs, c.Owners, c.Degree, target, tol, c.Shapes[0].Parity, ":first-result-after-second-use"); !ok {
 			return err
 		}
 	}
